@@ -32,7 +32,14 @@ def corrupt_pbf_block(data, n):
         return None
     s, e = bl[n + 1]
     b = bytearray(data)
-    # the Blob message: corrupt its second half (zlib stream or raw PrimitiveBlock)
+    blob = s + 4 + int.from_bytes(data[s:s + 4], 'big')    # first byte of the Blob message
+    if data[blob] == 0x0a and blob + 6 <= e:
+        # uncompressed blob (field 1 `raw`): a raw PrimitiveBlock has no checksum, so flipped bytes in its middle can
+        # leave a VALID block with other content (no error is due then).  Make the damage one that every decoder
+        # must reject: the length of the `raw` field (0xffffffff) points far behind the end of the blob.
+        b[blob + 1:blob + 6] = b'\xff\xff\xff\xff\x0f'
+        return bytes(b)
+    # zlib blob: corrupt the second half of the record (deflate stream / Adler-32)
     for p in range(s + (e - s) // 2, min(e, s + (e - s) // 2 + 6)):
         b[p] ^= 0xff
     return bytes(b)
